@@ -122,6 +122,32 @@ Theorem C12_key_dict_twice : forall dom km m1 m2 s, In s dom ->
 Proof. exact kmap_dict_twice. Qed.
 Print Assumptions C12_key_dict_twice.
 
+(* repeat_until: a further key map renames every name the loop condition reads, also a key of an enclosing scope that
+   the loop body never mentions; composing the dict over the body's names only (today's code, F20) does not *)
+Theorem C12_until_names_under_key_map : forall kK kM m c f,
+  exists f', t_kmap kK kM m (OSub c f) = OSub c f' /\ until f' = until f /\
+             until_read_names f' = map (name_map m) (until_read_names f).
+Proof. exact until_names_kmap. Qed.
+Print Assumptions C12_until_names_under_key_map.
+
+Theorem C12_until_names_body_only_refuted : forall kK kM,
+  exists f', t_kmap_body_only kK kM [("a", "z")]%string (OSub f20_body f20_fields) = OSub f20_body f' /\
+             until_read_names f' = ["a"; "b"]%string /\
+             map (name_map [("a", "z")]%string) (until_read_names f20_fields) = ["z"; "b"]%string.
+Proof. exact until_names_kmap_body_only_refuted. Qed.
+Print Assumptions C12_until_names_body_only_refuted.
+
+(* the repeat_until condition is scoped exactly like a classical control in a new last moment of the loop body: one
+   pass over body ++ [probe] is the pass over the body followed by the probe carrying the mapped loop condition
+   (so a loop may be replaced by plain repetitions of body ++ [probe] to observe, loop-free, what its condition reads) *)
+Theorem C12_until_scoped_as_last_control : forall kK kM c f u qs s,
+  until f = Some u -> rep_negative (reps f) = false -> (ids f = None \/ use_ids f = false) ->
+  single_loop kK kM (c ++ [[probe_leaf u qs]]) f None = Ok s ->
+  exists s0 u' qs', single_loop kK kM c f None = Ok s0 /\ s = s0 ++ [[probe_leaf u' qs']] /\
+                    mapped_until kK kM f (op_mkeys (OSub c f)) = Some u'.
+Proof. exact until_is_last_control. Qed.
+Print Assumptions C12_until_scoped_as_last_control.
+
 Theorem C12_inverse_twice : forall o o1 o2, t_inv o = Ok o1 -> t_inv o1 = Ok o2 -> o2 = o.
 Proof. exact inv_twice. Qed.
 Print Assumptions C12_inverse_twice.
@@ -206,3 +232,12 @@ Proof.
 Qed.
 Example C12_zero_rep_not_ok : op_ok zero_rep_witness = false.
 Proof. reflexivity. Qed.
+(* a loop until a == b under parent path p whose enclosing scope has bound p:a: hypotheses of
+   C12_until_scoped_as_last_control are met, and the condition reads p:a (the enclosing scope's key) and its own p:b *)
+Example C12_until_scoped_example :
+  let u := CSym 5 [MK [] "a"; MK [] "b"] in
+  let f := SubF (RInt 1) None false [] [] [] ["p"]%string [MK ["p"]%string "a"] (Some u) in
+  until f = Some u /\ rep_negative (reps f) = false /\ ids f = None /\
+  (exists s, single_loop true true (f20_body ++ [[probe_leaf u [4]]]) f None = Ok s) /\
+  mapped_until true true f (op_mkeys (OSub f20_body f)) = Some (CSym 5 [MK ["p"]%string "a"; MK ["p"]%string "b"]).
+Proof. cbv zeta. repeat split; try reflexivity. eexists. reflexivity. Qed.
